@@ -896,3 +896,23 @@ def report(ctx, results, cov, own):
     ctx.coverage["distinct_nontrivial"] = ctx.coverage.get("distinct_nontrivial", 0) + len({tuple(r["features"]) for r in results})
     for seed, unc in cov["unconfirmed_oracle_failures"]:
         ctx.notes.append(f"cliworld seed {seed}: oracle failure(s) {unc} did not repeat in a second run of the same world")
+
+
+def normalize_world(world):
+    """a world read back from a replay file (JSON turned tuples into lists and int keys into strings)"""
+    for t in world["targets"]:
+        t["outs"] = [tuple(o) for o in t["outs"]]
+        t["alias"] = {int(k): v for k, v in t["alias"].items()}
+    return world
+
+
+def replay(ctx, rep):
+    world = normalize_world(rep["world"])
+    r = run_world(ctx, "world-replay", world)
+    print("features:", r["features"])
+    for b in r["builds"]:
+        print("build", b)
+    print("oracle failures:" if r["bad"] else "all oracles hold on this run")
+    for x in r["bad"]:
+        print("  ", x)
+    return 0
